@@ -94,6 +94,12 @@ CLAIMED["C17"] = dict(cat="model_checking", ref="DESIGN.md 6 C17",
    note="Trusted: the fake docker daemon (inspect endpoint only). Containerd path and veth clean-up not covered. Time-based rounds: the driver waits for >= 3 inspect rounds per phase.",
    tech="TLA+ behaviour spec checked by TLC (safety + liveness) + scenario vectors replayed into the real collector")
 
+CLAIMED["C14"] = dict(cat="model_checking", ref="DESIGN.md 6 C14",
+   text="PortMap.tla abstracts the NAT table (redirect rules, per-mapping chains, stale galaxy chains, foreign rules) and the three entry points; TLC checks CleanIsInverse, OthersUntouched, SyncExact on the specification and enumerates every bounded "
+        "history with the table expected after each operation; the histories run on the real PortMappingHandler over a fake NAT table preloaded with stale and foreign chains, and real sockets check that handed-out ports (random too) are distinct, held and released.",
+   note="Trusted: the repository's fake iptables. Kernel iptables behaviour is not exercised.",
+   tech="TLA+ spec evaluated exhaustively by TLC (laws + expected tables) + history replay into the real handler over a fake NAT table and real sockets")
+
 NA = {
  "C19": "data races are below the granularity of an action-level TLA+ specification; deciding them needs a race detector / lock-set analysis, i.e. another technique (DESIGN.md section 1)",
 }
